@@ -255,7 +255,7 @@ pub fn enumerate_orders(members: &[usize], cfg: &RegConfig, all_reg_orders: bool
                     let i = members[pi];
                     reg.register(Box::new(Spy { idx: i, inner: make(i).0, log: log.clone() })).map_err(|e| format!("register {}: {}", POOL[i].name, e))?;
                 }
-                let result = reg.gather();
+                let result = crate::watchdog::case(|| format!("gather of {:?} under {:?}", members, cfg), || reg.gather());
                 *gathers += 1;
                 let order = log.lock().unwrap().clone();
                 if seen.insert(order.clone()) {
